@@ -7,7 +7,7 @@
 From Coq Require Import String NArith List Bool Lia PeanoNat.
 From RC Require Import lib.Result lib.Bytes model.Layout model.Flags model.TrigTable model.RichCodec model.Str
   proofs.Layout_proofs proofs.Flags_proofs proofs.C05_proofs proofs.C08_proofs proofs.C10_proofs proofs.C04_proofs
-  proofs.C12_proofs proofs.Save_strings gen.GenTrig spec.SpecTrig gen.GenFlags gen.GenEnums.
+  proofs.C12_proofs proofs.Save_strings proofs.Utf8_inverse lib.Utf8 gen.GenTrig spec.SpecTrig gen.GenFlags gen.GenEnums.
 Import ListNotations.
 Local Open Scope string_scope.
 Local Open Scope list_scope.
@@ -192,11 +192,23 @@ Qed.
 (* ---- the argument codecs that consult no object table invert: the value read back is the authored one -------------------- *)
 
 Definition plain_codec (c : codec) : bool :=
-  match c with CRaw | CEnum _ | CStr | CStrValue => true | _ => false end.
+  match c with CRaw | CEnum _ | CStr | CStrValue | CAiScript => true | _ => false end.
 
 (* an authored enumeration argument is a member of its enumeration (the rich classes admit nothing else) *)
 Definition arg_member (c : codec) (x : rarg) : Prop :=
   match c, x with CEnum E, AEnum n => enum_has E n = true | _, _ => True end.
+
+(* an AI script name that fits four bytes of UTF-8 is written as those bytes and read back as the same name *)
+Lemma ai_codec_inverts cx n v : enc_arg cx CAiScript (AAi n) = Ok v -> dec_arg cx CAiScript v = Ok (AAi n).
+Proof.
+  intros H. cbn [enc_arg dec_arg] in *.
+  inv_bind H as bs Hbs Hk. destruct (Nat.eqb (length bs) 4) eqn:El; [|discriminate]. inversion Hk; subst v. clear Hk.
+  apply Nat.eqb_eq in El. pose proof (utf8_encode_bytes _ _ Hbs) as Hb.
+  assert (bytes_ok bs) as Hok by exact Hb.
+  unfold ai_name. pose proof (le_decode_bound bs Hok) as Hlt. rewrite El in Hlt.
+  assert ((le_decode bs <? 2 ^ 32) = true) as -> by (apply N.ltb_lt; exact Hlt).
+  rewrite <- El at 1. rewrite (le_encode_decode bs Hok). rewrite (utf8_encode_decode _ _ Hbs). reflexivity.
+Qed.
 
 Lemma plain_codec_inverts cx c x n :
   plain_codec c = true -> arg_member c x -> N.of_nat (length (sl_by_id (cx_str cx))) <= 1000000 ->
@@ -207,6 +219,7 @@ Proof.
   - inversion H; subst. cbn [arg_member] in Hm. rewrite Hm. reflexivity.
   - destruct (id_by_str_resolves _ _ _ Hsmall H) as [-> _]. reflexivity.
   - destruct (id_by_str_resolves _ _ _ Hsmall H) as [-> _]. reflexivity.
+  - apply (ai_codec_inverts cx). exact H.
 Qed.
 
 (* an action all of whose arguments are plain numbers, enumeration members and strings is read back with exactly the
